@@ -319,6 +319,11 @@ func (in *Interp) initExterns() {
 		}
 		return a[1]
 	})
+	sx("Stub", func(in *Interp, _ *frame, _ *ssa.Function, a []value) value {
+		in.pathStubs[strArg(a[0])] = a[1].(Iface).v
+		in.res.UsesStub = true
+		return nil
+	})
 	sx("IsSymbolic", func(in *Interp, _ *frame, _ *ssa.Function, a []value) value { return ts.True })
 	// threads
 	sx("Go", func(in *Interp, fr *frame, _ *ssa.Function, a []value) value {
